@@ -16,9 +16,9 @@ CHECKS = {
    engine="E1 SQVM abstract mode (z3)",
    technique="per-function SMT encoding of all control-flow paths over (pc, stack height, locals) abstracted from the real compiler's bytecode; counterexample paths re-derived by a Rust walk of the real instructions",
    category="model_checking",
-   text="For each function emitted by the real compiler for the corpus (std, examples, test-suite sources, spec examples), as compiled, after the real tree_shake and after the real Environment merge, ONE solver query decides all paths: jumps in range, no underflow below the frame, single height per join, exit with exactly one result, loads defined, Reset within locals; table indices in range. The path quantifier is decided exhaustively (CFG proven acyclic); the program quantifier is instantiated by the corpus, which is what the property names.",
+   text="For each function emitted by the real compiler for the corpus (std, examples, test-suite sources, spec examples), as compiled, after the real tree_shake and after the real Environment merge, ONE solver query decides all paths: jumps in range, no underflow below the frame, single height per join, exit with exactly one result, loads defined, Reset within locals, every Store reached with the same number of locals on all paths (so the slot a binding gets is path independent); table indices in range. The path quantifier is decided exhaustively (CFG proven acyclic); the program quantifier is instantiated by the corpus, which is what the property names.",
    design_ref="DESIGN.md §4 C07",
-   note="Trusted: the instruction-effect table (validated each run against single-stepped real executions), z3. Programs outside the corpus are not covered; generated programs are not used.",
+   note="Trusted: the instruction-effect table (validated each run against single-stepped real executions), z3. Programs outside the corpus are not covered; the corpus includes the generated tail-call and pattern-matching families.",
  ),
  "C16": dict(
    engine="E1 SQVM abstract mode (z3)",
@@ -56,7 +56,7 @@ CHECKS = {
    engine="E1 SQVM (z3)",
    technique="symbolic execution of the real bytecode of every exported function of the corpus programs over all constructor shapes of its declared parameter type (integer leaves symbolic); never-stuck and result-inhabits-type obligations; counterexamples re-compiled and run as source-level programs through the real compiler",
    category="model_checking",
-   text="INPUTS QUANTIFIER ONLY. The program quantifier is instantiated by a corpus (std modules + examples; thorough adds the test-suite and spec sources); for each function those programs export, the solver decides over EVERY value of the declared parameter type (all constructor shapes to depth 3 from the real type table, unbounded symbolic integers, opaque binaries) that execution never reaches a VM-level type failure and that returned values inhabit the inferred result type (real is_compatible). A violation is reported only if the same call, written as a source literal, is accepted by the real compiler and gets stuck on the real executor. A checker hole that no corpus function exercises is not detected.",
+   text="INPUTS QUANTIFIER ONLY. The program quantifier is instantiated by a corpus (std modules + examples; thorough adds the test-suite and spec sources) and by generated program families (library call sites with related argument types, user-defined generic functions, tail-call shapes, pattern-matching shapes, sequence shapes, functions over partial-typed parameters); for each function those programs export, the solver decides over EVERY value of the declared parameter type (all constructor shapes to depth 3 from the real type table, unbounded symbolic integers, opaque binaries) that execution never reaches a VM-level type failure and that returned values inhabit the inferred result type (real is_compatible). A violation is reported only if the same call, written as a source literal, is accepted by the real compiler and gets stuck on the real executor. A checker hole that no corpus function exercises is not detected.",
    design_ref="DESIGN.md §4 C01",
    note="Trusted: SQVM semantics/builtin models (validated against the real executor), z3, real is_compatible via qvdump. Functions with function/process/generic parameters are skipped; paths through concurrency instructions, unmodelled builtins on opaque binaries, the step/time budget are counted, not claimed.",
  ),
